@@ -729,7 +729,7 @@ class Explorer:
                             return INT(ord(sv[1][k_]))
                         if k_ == len(sv[1]):
                             return INT(0)
-                if loc is not None and loc not in st.store:
+                if loc is not None and (loc not in st.store or st.store[loc] == TOP):
                     tname = n.get("ct") or n.get("t") or ""
                     if tname.startswith("struct ") or tname.startswith("union "):
                         # a struct read as a whole: carry its known fields (by-value argument, struct copy)
